@@ -338,7 +338,8 @@ def _defs_world(w: _World, entity_type, integral_type, coef_offsets, num_coord_d
                    coefficient_offsets=dict(coef_offsets), coefficient_numbering={c: i for i, c in enumerate(coef_offsets)}, element_tables={})
     access = Node("FFCXBackendAccess", symbols=symbols, entity_type=entity_type, integral_type=integral_type)
     defs = Node("FFCXBackendDefinitions", symbols=symbols, access=access, entity_type=entity_type, integral_type=integral_type, options={})
-    mesh = Node("Mesh", ufl_coordinate_element=_PyCall(lambda: Node("CoordinateElement", _sub_element=Node("Element", dim=num_coord_dofs))))
+    mesh = Node("Mesh", geometric_dimension=2, topological_dimension=2,
+                ufl_coordinate_element=_PyCall(lambda: Node("CoordinateElement", _sub_element=Node("Element", dim=num_coord_dofs))))
     w.I.overrides["ufl.domain.extract_unique_domain"] = _PyCall(lambda t: mesh)
     return defs, symbols
 
